@@ -26,6 +26,14 @@ impl<T: ?Sized> Mutex<T> {
     }
     /// also re-initialises the whole lock word in place (objects moved into a heap allocation lose CBMC's
     /// field-level constant propagation; rewriting the fields after the allocation restores it)
+    /// non-blocking: `None` when another logical thread holds the lock (or this one: parking_lot's try_lock fails too)
+    pub fn try_lock(&self) -> Option<MutexGuard<'_, T>> {
+        vs::schedule_point(vs::S_LOCK_ACQ);
+        let st = unsafe { &mut **self.st.get() };
+        if st.writer != 0 { return None; }
+        vs::acquire_exclusive(st);
+        Some(MutexGuard { m: self })
+    }
     pub fn vk_set_class(&self, c: u8) { unsafe { *self.st.get() = vs::new_lock_word(); (**self.st.get()).class = c; } }
     pub fn vk_locked(&self) -> bool { unsafe { (**self.st.get()).writer != 0 } }
     #[allow(clippy::mut_from_ref)]
@@ -33,7 +41,7 @@ impl<T: ?Sized> Mutex<T> {
 }
 impl<'a, T: ?Sized> Deref for MutexGuard<'a, T> { type Target = T; fn deref(&self) -> &T { unsafe { &*self.m.data.get() } } }
 impl<'a, T: ?Sized> DerefMut for MutexGuard<'a, T> { fn deref_mut(&mut self) -> &mut T { unsafe { &mut *self.m.data.get() } } }
-impl<'a, T: ?Sized> Drop for MutexGuard<'a, T> { fn drop(&mut self) { vs::release_exclusive(unsafe { &mut **self.m.st.get() }); } }
+impl<'a, T: ?Sized> Drop for MutexGuard<'a, T> { fn drop(&mut self) { vs::schedule_point(vs::S_LOCK_REL); vs::release_exclusive(unsafe { &mut **self.m.st.get() }); } }
 
 pub struct RwLock<T: ?Sized> { st: UnsafeCell<*mut vs::LockState>, data: UnsafeCell<T> }
 unsafe impl<T: ?Sized + Send> Send for RwLock<T> {}
@@ -58,13 +66,27 @@ impl<T: ?Sized> RwLock<T> {
     }
     /// also re-initialises the whole lock word in place (objects moved into a heap allocation lose CBMC's
     /// field-level constant propagation; rewriting the fields after the allocation restores it)
+    pub fn try_read(&self) -> Option<RwLockReadGuard<'_, T>> {
+        vs::schedule_point(vs::S_LOCK_ACQ);
+        let st = unsafe { &mut **self.st.get() };
+        if st.writer != 0 { return None; }
+        vs::acquire_shared(st, true);
+        Some(RwLockReadGuard { l: self })
+    }
+    pub fn try_write(&self) -> Option<RwLockWriteGuard<'_, T>> {
+        vs::schedule_point(vs::S_LOCK_ACQ);
+        let st = unsafe { &mut **self.st.get() };
+        if st.writer != 0 || st.readers.iter().any(|r| *r > 0) { return None; }
+        vs::acquire_exclusive(st);
+        Some(RwLockWriteGuard { l: self })
+    }
     pub fn vk_set_class(&self, c: u8) { unsafe { *self.st.get() = vs::new_lock_word(); (**self.st.get()).class = c; } }
     pub fn vk_locked(&self) -> bool { unsafe { let s = &**self.st.get(); s.writer != 0 || s.readers.iter().any(|r| *r > 0) } }
     #[allow(clippy::mut_from_ref)]
     pub fn vk_data(&self) -> &mut T { unsafe { &mut *self.data.get() } }
 }
 impl<'a, T: ?Sized> Deref for RwLockReadGuard<'a, T> { type Target = T; fn deref(&self) -> &T { unsafe { &*self.l.data.get() } } }
-impl<'a, T: ?Sized> Drop for RwLockReadGuard<'a, T> { fn drop(&mut self) { vs::release_shared(unsafe { &mut **self.l.st.get() }); } }
+impl<'a, T: ?Sized> Drop for RwLockReadGuard<'a, T> { fn drop(&mut self) { vs::schedule_point(vs::S_LOCK_REL); vs::release_shared(unsafe { &mut **self.l.st.get() }); } }
 impl<'a, T: ?Sized> Deref for RwLockWriteGuard<'a, T> { type Target = T; fn deref(&self) -> &T { unsafe { &*self.l.data.get() } } }
 impl<'a, T: ?Sized> DerefMut for RwLockWriteGuard<'a, T> { fn deref_mut(&mut self) -> &mut T { unsafe { &mut *self.l.data.get() } } }
-impl<'a, T: ?Sized> Drop for RwLockWriteGuard<'a, T> { fn drop(&mut self) { vs::release_exclusive(unsafe { &mut **self.l.st.get() }); } }
+impl<'a, T: ?Sized> Drop for RwLockWriteGuard<'a, T> { fn drop(&mut self) { vs::schedule_point(vs::S_LOCK_REL); vs::release_exclusive(unsafe { &mut **self.l.st.get() }); } }
